@@ -492,12 +492,13 @@ fn cmd_check(prop: &str, tier: &str) -> i32 {
             "event_log_hash": format!("{:016x}", log_hash),
             "workers": workers,
             "components_real": ["reply() and everything below it: L2-L4, SYN cookie, connection table, smack matcher, all protocol handlers, both loggers, pnet packet code, chrono/flate2/siphasher - built from /repo's working tree with --cfg masscanned_verif (debug and release)"],
-            "components_stubbed": ["pnet datalink rx/tx and the receive loop body (mirrored by the driver)", "CLI and IP-list file parsing (configuration injected)", "clock sources: wall clock and monotonic clock are simulated (shadowed imports in the guarded hook, plus an LD_PRELOAD shim answering clock_gettime/gettimeofday/time for every other read)", "stderr log back-end (formatting sink)"],
+            "components_stubbed": ["pnet datalink rx/tx and the receive loop body (mirrored by the driver)", "CLI and IP-list file parsing (configuration injected); the bound network interface is described by the driver (hardware address, its own addresses, flags) instead of being read from the operating system", "clock sources: wall clock and monotonic clock are simulated (shadowed imports in the guarded hook, plus an LD_PRELOAD shim answering clock_gettime/gettimeofday/time for every other read)", "stderr log back-end (formatting sink)"],
         },
         "assumptions": [
             "a clean batch is evidence, not proof: seeded sampling of schedules, faults, inputs and configurations",
             "the independent dissectors/decoders of the simulator (wire.rs, apps/*) are the trusted base of the oracles",
             "frames are at most 4096 bytes (capture buffer)",
+            "resident memory of the node process (C09 memory rule) is a measurement read from /proc beside the deterministic history; it is not part of the replayed observations",
         ],
     });
     let evp = root().join("evidence").join(format!("{}.json", prop));
